@@ -1183,6 +1183,10 @@ def param_lens(src, rname, after, consts, generics):
 def translate_fn4(src, rust_name, lname, rel, consts, fns, pfns, fuel, after=None, self_ty=None, pre_params=(), info=None):
     """like rs2lean_loops.translate_fn with the classes of this module; `pre_params`: [(name, type)] put in front"""
     params_text, ret_text, body = find_fn(src, rust_name, after)
+    if X["opaque"]:
+        for k, v in tokenize(params_text):
+            if k == "id" and v in OPAQUE_PARAMS:
+                raise Unsupported(f"parameter {v} clashes with a parameter added by the translator")
     probe = BT4Emitter(consts, fns, pfns, rust_name)
     probe.self_ty_override = self_ty
     inouts = []
@@ -1228,7 +1232,8 @@ def run_group4(status, changed, out_name, header_src, imports, preamble, specs, 
                                                      pre_params=sp.get("pre", ()), info=info)
             plens = param_lens(src, rname, sp.get("after"), consts, len(sp.get("pre", ())))
         except Unsupported as ex:
-            status["failed"][key] = "bt4: " + str(ex)
+            if not sp.get("outside"):      # attempted on every run so that the report says why (never listed as `translated`)
+                status["failed"][key] = "bt4: " + str(ex)
             status.setdefault("outside_subset", {})[lname] = str(ex)
             continue
         except Exception as ex:      # a translator crash is also a refusal, never a guess
@@ -1341,7 +1346,7 @@ def run_inner(status, changed, fns, read_src):
         sp("tip5_hash_varlen", "hash_varlen", tip5_rel, IMPL_T),
         # the rejection loop has no bound: the fuel is an explicit parameter
         sp("tip5_sample_indices", "sample_indices", tip5_rel, IMPL_T, fuel="fuel_v", pre=[("fuel", "usize")]),
-        sp("tip5_sample_scalars", "sample_scalars", tip5_rel, IMPL_T),
+        sp("tip5_sample_scalars", "sample_scalars", tip5_rel, IMPL_T, outside=True),
     ]
     run_group4(status, changed, "SpongeLoops", tip5_rel + ", " + sponge_rel,
                ["TF.Gen.Consts", "TF.Gen.Tip5Loops", "TF.Model.RustIter"], [], sponge_specs, read_src, tfns, pfns)
@@ -1369,7 +1374,7 @@ def run_inner(status, changed, fns, read_src):
                  fuel="(right_lineage_count + 1)", pre=HD, free=True),
             dict(lname="mmr_calculate_new_peaks_from_leaf_mutation", rname="calculate_new_peaks_from_leaf_mutation",
                  rel=sb_rel, pre=HD, free=True),
-            dict(lname="mmr_bag_peaks", rname="bag_peaks", rel=sh_rel, pre=HD + [("hash0", "digest")], free=True),
+            dict(lname="mmr_bag_peaks", rname="bag_peaks", rel=sh_rel, pre=HD + [("hash0", "digest")], free=True, outside=True),
         ]
         run_group4(status, changed, "MmrPeaksLoops", sb_rel + ", " + sh_rel, ["TF.Gen.MmrIndex", "TF.Model.RustIter"], pre,
                    mmr_specs, read_src, dict(ifns), {})
